@@ -37,10 +37,10 @@ PROPERTIES: dict[str, dict] = {
     "C09": {"title": "The reveal-one-coalition environment", "rules": [gym.rule_c09_typestate, gym.rule_c09_step, gym.rule_c09_spaces, gym.rule_c09_reset, gym.rule_c09_done, gym.rule_h3_undo, gym.rule_episode_state_reset, wiring.rule_env_factory, wiring.rule_known_coalitions, normalize.rule_m1, normalize.rule_m2345, game.rule_c17_columns, game.rule_c17_getters, game.rule_c17_copy_neg_init, game.rule_c17_compute_and_state, hygiene.rule_no_module_state, hygiene.rule_dtypes, normalize.rule_m6_stale_views],
             "explanation": _NOTE + " C09: T1 recompute-before-observe typestate, Y1 reveal pairing, Y2 index-space agreement, Y3 reset order/aliasing, Y4 explorable set, Y5 reward sign, D1 done predicate, H3 undo pairing.",
             "rule": _SITE_RULE},
-    "C10": {"title": "Every offered generator runs and yields a game of its class", "rules": [generators.rule_nsig, generators.rule_nint, generators.rule_nrng, generators.rule_next_nfac, generators.rule_nidx, wiring.rule_seed_integrity, wiring.rule_graph_game, coalitions.rule_k1_k2, coalitions.rule_k3_operators, hygiene.rule_no_module_state, hygiene.rule_dtypes],
+    "C10": {"title": "Every offered generator runs and yields a game of its class", "rules": [generators.rule_nsig, generators.rule_nint, generators.rule_nrng, generators.rule_next_nfac, generators.rule_nidx, generators.rule_nrange, wiring.rule_seed_integrity, wiring.rule_graph_game, coalitions.rule_k1_k2, coalitions.rule_k3_operators, hygiene.rule_no_module_state, hygiene.rule_dtypes],
             "explanation": _NOTE + " C10: N-sig registry exhaustiveness against the call convention, N-int NumPy-integer flow into int-dispatching operands (sinks derived from isinstance tests), N-rng RNG-source discipline of every reachable generator function.",
             "rule": _SITE_RULE},
-    "C11": {"title": "Exhaustive search", "rules": [evaluation.rule_p1_pool_api, gameplay.rule_c11_worker, gameplay.rule_p4_paired, gameplay.rule_c11_best_states, gameplay.rule_l1_lazy_reuse, wiring.rule_known_coalitions, hygiene.rule_no_module_state, hygiene.rule_dtypes],
+    "C11": {"title": "Exhaustive search", "rules": [evaluation.rule_p1_pool_api, gameplay.rule_c11_worker, gameplay.rule_p4_paired, gameplay.rule_c11_best_states, gameplay.rule_p6_sampled_search, gameplay.rule_l1_lazy_reuse, wiring.rule_known_coalitions, hygiene.rule_no_module_state, hygiene.rule_dtypes],
             "explanation": _NOTE + " C11: P1 order-preserving pool API, P2 worker purity + T1 recompute-before-gap, P3 enumeration shape, P4 paired get_values/set_known_values arguments, P5 best-states selection, P9 meta-game, L1 single-use iterator reuse (path-sensitive, package-wide).",
             "rule": _SITE_RULE},
     "C12": {"title": "evaluate() records true trajectories; independent of parallelism", "rules": [evaluation.rule_c12_recording, evaluation.rule_p1_pool_api, evaluation.rule_c12_rng, wiring.rule_seed_integrity, wiring.rule_solve_wiring, wiring.rule_env_factory, gym.rule_c09_step, hygiene.rule_no_module_state, hygiene.rule_dtypes, gym.rule_episode_state_reset, gym.rule_c09_reset],
@@ -66,7 +66,7 @@ PROPERTIES: dict[str, dict] = {
             "rule": _SITE_RULE},
     "C19": {
         "title": "Saved results read back faithfully and are never overwritten",
-        "rules": [save.rule_c19_saver, save.rule_c19_output_roundtrip, save.rule_c19_commands, save.rule_c19_readers, save.rule_c20_atomic, hygiene.rule_no_module_state, hygiene.rule_dtypes],
+        "rules": [save.rule_c19_saver, save.rule_c19_output_roundtrip, save.rule_c19_commands, save.rule_c19_readers, save.rule_c20_atomic, wiring.rule_seed_integrity, hygiene.rule_no_module_state, hygiene.rule_dtypes],
         "explanation": _NOTE + " C19: W1 skip-if-present dominates writes; W2 serialised mapping = loaded mapping + new key; "
                        "W3 Output.json/from_json key and column agreement; W4 commands store position 0/1 of what they computed; "
                        "W5 written content is installed; REG-V saver registry and dispatcher; A1-A5 (shared with C20): a save that fails or is interrupted must not damage the runs already stored.",
